@@ -129,6 +129,10 @@ def det1(ctx, modules: Iterable[str], rule: str = "DET-1") -> int:
     mods = set(modules)
     n = 0
     hits: Dict[Tuple[str, str], int] = {}
+    import ast as _ast
+    # functions a class body binds as its __hash__ (`__hash__ = _hash_fields`): hash() inside them is the object hash
+    hash_impls = {v.id for c in ctx.p.classes.values() for k_, v in c.class_attrs.items()
+                  if k_ == "__hash__" and isinstance(v, _ast.Name)}
     for e, fi in w.sites:
         if w.module_of(e) not in mods:
             continue
@@ -138,7 +142,8 @@ def det1(ctx, modules: Iterable[str], rule: str = "DET-1") -> int:
                 nm = x.args[0]
                 if nm.startswith(BANNED_PREFIXES) and not nm.startswith("jax."):
                     hits[(fi.qualname if fi else e.frame.label, nm)] = e.line
-                if nm in ("builtins.hash", "builtins.id") and fi is not None and fi.name != "__hash__":
+                if nm in ("builtins.hash", "builtins.id") and fi is not None and fi.name != "__hash__" and \
+                        fi.name not in hash_impls:
                     hits[(fi.qualname, nm)] = e.line
     for mname in mods:
         ctx.ob(rule, f"{mname}: no nondeterministic source", not any(
